@@ -1,6 +1,6 @@
 #!/bin/bash
 # import_seed.sh <ID> <N> : verify and store a seeded change under /verif/seeded/<ID>-<N>/
-ID=$1; N=$2; O=/tmp/mutout/$ID; PID=${ID%[bcd]}; DN=$N; case $ID in *b) DN=$((N+2));; *c) DN=$((N+4));; *d) DN=$((N+6));; esac; D=/verif/seeded/$PID-$DN
+ID=$1; N=$2; O=/tmp/mutout/$ID; PID=${ID%[bcde]}; DN=$N; case $ID in *b) DN=$((N+2));; *c) DN=$((N+4));; *d) DN=$((N+6));; *e) DN=$((N+8));; esac; D=/verif/seeded/$PID-$DN
 OUT=$(/verif/tools/verify_seed.sh $ID $N 2>&1); echo "$OUT" | tail -4
 echo "$OUT" | grep -q "RESULT: CONFIRMED" || exit 1
 mkdir -p $D; cp $O/patch$N.diff $D/patch.diff; cp $O/demo$N.c $D/demo.c
@@ -8,7 +8,7 @@ python3 - "$ID" "$N" "$OUT" "$D" "$PID" <<'PY'
 import json,sys
 i,n,out,d,pid=sys.argv[1:6]
 m=json.load(open('/tmp/mutout/%s/meta%s.json'%(i,n)))
-m['breaks_property']=pid; m['property']=pid; m['round']={'b':2,'c':3,'d':4}.get(i[-1],1)
+m['breaks_property']=pid; m['property']=pid; m['round']={'b':2,'c':3,'d':4,'e':5}.get(i[-1],1)
 m['confirmed_by']={'script':'tools/verify_seed.sh %s %s (scratch worktree /tmp/mut/%s, removed afterwards)'%(i,n,i),
   'observed':[l for l in out.split('\n') if l.startswith(('ctest','demo w','RESULT'))]}
 json.dump(m,open(d+'/meta.json','w'),indent=1)
